@@ -67,7 +67,7 @@ def check(run):
     run.clause('R1 every scalar/pointer/enum/array-of-scalar field of every library record is initialised by every constructor')
     recs = [r for r in lib_records(fx) if r['norm'] not in R1_SKIP_RECORDS]
     engines.r1_field_init(run, recs, R1_EXCEPTIONS)
-    run.floor('R1', 40)
+    run.floor('R1', 28)
 
     # R1 base-init: function_impl assigns both fields of its trivial base
     for fn in fx.fn('sim::aux::function_impl::function_impl'):
@@ -111,7 +111,7 @@ def check(run):
     r13c(run, OUTPUT_ONLY)
     r13d(run, simlib.REPO_PREFIX)
     r13e(run, GLOBALS, simlib.REPO_PREFIX)
-    run.floor('R13e', 3)
+    run.floor('R13e', 2)
 
 
 def r13b(run, OUTPUT_ONLY, with_library_tables=True):
